@@ -7,16 +7,26 @@ From RtoscV Require Import Match.PatSpec Match.MatchModel Ports.NameModel Ports.
 Import ListNotations.
 Local Open Scope Z_scope.
 
-(* the key of a name: its path part with every '#N' replaced by '#' *)
-Definition key (l : list NameModel.seg) : list Z :=
-  concat (map (fun s => match s with NameModel.Lit t => t | NameModel.Enum _ => [35] end) l).
+(* a string with every maximal digit run replaced by the single character '#' *)
+Fixpoint shape_aux (in_run : bool) (s : list Z) : list Z :=
+  match s with
+  | [] => []
+  | c :: t => if isdigit c then (if in_run then shape_aux true t else 35 :: shape_aux true t)
+              else c :: shape_aux false t
+  end.
+Definition shape (s : list Z) : list Z := shape_aux false s.
 
+(* the key of a name: its path part with every '#N' and every digit run of its
+   literal text replaced by '#' (rep0: each '#N' as the digit 0, then shape) *)
+Definition rep0 (l : list NameModel.seg) : list Z :=
+  concat (map (fun s => match s with NameModel.Lit t => t | NameModel.Enum _ => [48] end) l).
+Definition key (l : list NameModel.seg) : list Z := shape (rep0 l).
 
 Definition skey (q : sport) : list Z := match q with SPort sg _ _ _ => key sg end.
 
 
 Definition litcharb (c : Z) : bool :=
-  (0 <? c) && (c <? 127) && negb ((c =? 58) || (c =? 123) || (c =? 42) || (c =? 35)) && negb (isdigit c).
+  (0 <? c) && (c <? 127) && negb ((c =? 58) || (c =? 123) || (c =? 42) || (c =? 35)).
 
 Fixpoint segs_okb (l : list NameModel.seg) : bool :=
   match l with
@@ -24,7 +34,11 @@ Fixpoint segs_okb (l : list NameModel.seg) : bool :=
   | NameModel.Lit s :: r => negb (is_nil s) && forallb litcharb s && segs_okb r
   | NameModel.Enum n :: r =>
       (0 <=? n) && (n <? 1000000000) &&
-      match r with NameModel.Enum _ :: _ => false | _ => true end && segs_okb r
+      match r with
+      | NameModel.Enum _ :: _ => false
+      | NameModel.Lit t :: _ => negb (starts_with_digit t)
+      | [] => true
+      end && segs_okb r
   end.
 
 Definition argsb (a : list Z) : bool :=
@@ -79,7 +93,8 @@ Fixpoint port_okb (p : sport) : bool :=
       (fix all (l : list sport) : bool := match l with [] => true | x :: r => port_okb x && all r end) l
   end.
 
-(* names_ok: every name of the documented shape with digit-free literal text,
-   the keys of every table pairwise not prefixes of one another *)
+(* names_ok: every name of the documented shape (literal text may hold digits;
+   the text behind a '#N' does not begin with one), the keys of every table
+   pairwise not prefixes of one another *)
 Definition names_ok (root : list sport) : bool := table_okb root && forallb port_okb root.
 
